@@ -593,11 +593,14 @@ func loadAddrDeep(v ssa.Value) ssa.Value {
 	return v
 }
 
-// c13Cutsets: strings.Trim/TrimLeft/TrimRight take a *set of characters*; with a computed second
-// argument they strip every trailing/leading character that occurs in it, not the suffix/prefix.
-func c13Cutsets(p *Prog, r *Report) {
+// cutsetDiscipline: strings.Trim/TrimLeft/TrimRight take a *set of characters*. With a computed
+// second argument, or a constant of several different characters that is not a whitespace set, they
+// strip every leading/trailing character that occurs in it — not that string as a prefix/suffix
+// ("./" also eats the dots of "../x" and ".hidden"). Every such call in the pinned tree uses a
+// single-character cutset; prefix/suffix removal is done with TrimPrefix/TrimSuffix/slicing.
+func cutsetDiscipline(p *Prog, r *Report, rule string, relPkgs ...string) {
 	n := 0
-	for _, fn := range p.FuncsIn("guidedremediation/internal/manifest/npm", "guidedremediation/internal/manifest/maven") {
+	for _, fn := range p.FuncsIn(relPkgs...) {
 		forEachInstr(fn, func(_ *ssa.BasicBlock, _ int, in ssa.Instruction) {
 			c, ok := in.(*ssa.Call)
 			if !ok {
@@ -608,12 +611,28 @@ func c13Cutsets(p *Prog, r *Report) {
 				return
 			}
 			n++
-			_, isConst := c.Call.Args[1].(*ssa.Const)
 			site := fmt.Sprintf("%s:%s(%s)", fnKey(fn), rf.Name, short(renderValueDeep(c.Call.Args[1]), 60))
-			r.Check(isConst, "D8-no-computed-cutset", site, p.Pos(c.Pos()), "constant cutset", "strings."+rf.Name+" is called with a computed cutset: it removes every leading/trailing character that occurs in that string, not the string as a prefix/suffix — a version or property value ending in one of those characters is truncated (2.10 → 2.1)")
+			cs, isConst := constString(c.Call.Args[1])
+			okc := isConst
+			if isConst {
+				distinct := map[rune]bool{}
+				ws := true
+				for _, ch := range cs {
+					distinct[ch] = true
+					if !strings.ContainsRune(" \t\r\n\v\f\x00", ch) {
+						ws = false
+					}
+				}
+				okc = len(distinct) <= 1 || ws
+			}
+			r.Check(okc, rule, site, p.Pos(c.Pos()), "single-character (or whitespace) cutset", "strings."+rf.Name+" is called with a computed or multi-character cutset: it removes every leading/trailing character that occurs in that string, not the string as a prefix/suffix — \"../lib\" loses its dots under the cutset \"./\", a value ending in a character of the suffix is truncated (2.10 → 2.1)")
 		})
 	}
-	r.Count("Trim-family calls in the manifest writers", n)
+	r.Count("Trim-family calls checked", n)
+}
+
+func c13Cutsets(p *Prog, r *Report) {
+	cutsetDiscipline(p, r, "D8-no-computed-cutset", "guidedremediation/internal/manifest/npm", "guidedremediation/internal/manifest/maven")
 }
 
 // c13Identity: (a) a candidate local parent POM is recognised by comparing the parent's coordinates
